@@ -10,3 +10,5 @@ git -C /repo checkout -- .
 git -C /repo status --short | head -3
 # regenerate the generated Lean files from the clean tree again (the checks above left the mutated versions)
 harness/target/release/extract >/dev/null 2>&1
+# the evidence files written above describe the mutated tree: restore the committed ones
+for p in "$@"; do git -C /verif checkout -- "evidence/$p.json" 2>/dev/null; done
